@@ -348,6 +348,10 @@ func TestC07Programs(t *testing.T) {
 // operators, terms, statements or list elements side by side.
 func genLargeProgram(rt *rapid.T, g *gen.G) (prog *gen.Program, class string, n int) {
 	n = rapid.IntRange(50, 700).Draw(rt, "size")
+	if rapid.IntRange(0, 5).Draw(rt, "boundary") == 0 {
+		// sizes around powers of two
+		n = rapid.SampledFrom([]int{63, 64, 65, 127, 128, 129, 255, 256, 257, 511, 512, 513, 1023, 1024, 1025}).Draw(rt, "boundarysize")
+	}
 	prog = &gen.Program{}
 	switch rapid.IntRange(0, 3).Draw(rt, "largekind") {
 	case 0:
